@@ -318,7 +318,7 @@ func c07Run(c batchCase) (out Outcome) {
 		}
 		// a call whose success was delivered must keep it, whatever happens to the others.
 		// "Delivered" is knowable when the batch was not cancelled and re-location did not fail.
-		if executed[op.Marker] && c.CancelAtMS < 0 {
+		if executed[op.Marker] && c.CancelAtMS < 0 && len(c.OwnCtx) == 0 {
 			return viol("result-success-lost", "call %s (index %d) was executed successfully and answered, but its result is the error %v", op.Marker, i, r.Error)
 		}
 		// ... also when the context is cancelled later: the answer (sent at once by the
@@ -326,7 +326,15 @@ func c07Run(c batchCase) (out Outcome) {
 		if at, ok := executedAt[op.Marker]; ok && c.CancelAtMS >= 0 && at < time.Duration(c.CancelAtMS)*time.Millisecond {
 			return viol("result-success-lost", "call %s (index %d) was executed and answered at %v, the batch context was cancelled at %dms, yet its result is the error %v", op.Marker, i, at, c.CancelAtMS, r.Error)
 		}
+		ownEnded := false
+		for _, k := range c.OwnCtx {
+			if k == i && (errors.Is(r.Error, context.Canceled) || errors.Is(r.Error, context.DeadlineExceeded)) {
+				ownEnded = true
+			}
+		}
 		switch {
+		case ownEnded:
+			// the call's own context ended while the batch was waiting for it: its own error
 		case final == "fatal" && c.CancelAtMS < 0 && !obs.dropped:
 			if mks := errMarkers(r.Error); len(mks) != 1 {
 				return viol("result-not-own-error", "call %s (index %d) ended with a scripted application exception but its result is %v", op.Marker, i, r.Error)
@@ -412,7 +420,18 @@ func c07Gen(t *rapid.T) batchCase {
 	}
 	c.Scripts = genScripts(t, c.Batch, true)
 	c.CancelAtMS = -1
-	switch rapid.IntRange(0, 5).Draw(t, "mode") {
+	switch rapid.IntRange(0, 6).Draw(t, "mode") {
+	case 6:
+		// calls with a context of their own that ends while the batch (whose context stays alive) is
+		// waiting for them: a held response, released later
+		h := rapid.IntRange(0, len(c.Batch)-1).Draw(t, "held")
+		c.Scripts[c.Batch[h].Marker] = []sim.Outcome{{Kind: "hold"}}
+		c.OwnCtx = append(c.OwnCtx, h)
+		if rapid.Bool().Draw(t, "second") {
+			c.OwnCtx = append(c.OwnCtx, rapid.IntRange(0, len(c.Batch)-1).Draw(t, "own"))
+		}
+		c.CancelOwnAtMS = rapid.SampledFrom([]int{25, 30, 60}).Draw(t, "cancelown")
+		c.ReleaseAtMS = c.CancelOwnAtMS + rapid.SampledFrom([]int{1, 10, 100}).Draw(t, "releaseafter")
 	case 0:
 		c.CancelAtMS = rapid.SampledFrom([]int{0, 1, 10, 17, 40, 100, 1000, 31000}).Draw(t, "cancel")
 	case 1, 2:
